@@ -19,8 +19,8 @@ on, on models tied to the code; the property itself is decided on real execution
 | inline subtrees never truncate what they store | `can_inline_fits` (over the *generated* `ts_subtree_can_inline`, widths of `SubtreeInlineData`) |
 | `Array(T)` operations stay inside the allocation | `array_ops_in_bounds` = `push_in_bounds`, `growBy_in_bounds`, `pop_in_bounds`, `splice_in_bounds`, `erase_in_bounds`, `assign_in_bounds` (+ `insert`/`extend` as instances) |
 | `links[link_count++]` never overruns `links[MAX_LINK_COUNT]` | `stack_links_bounded` |
-| reference counts = owners, copy-on-write writes only exclusively owned cells, freed ids never reused | proved in `TsVerif/C08/Props.lean` (`rc_invariant_copy`, `rc_invariant_edit`, `writes_exclusive`, `freed_never_reused_*`) |
-| every allocation freed exactly once (leak freedom) | OPEN `no_leak_no_double_free` (needs the release cascade + the parser-held references: token cache, `finished_tree`, `old_tree`, reusable node, stack heads): **judged** on every history by the counting allocator |
+| reference counts = owners after every history of tree copy/edit/delete (incl. the release cascade), no dangling link, no cell without owner, copy-on-write writes only exclusively owned cells, freed ids never reused | proved in `TsVerif/C08/Props.lean` (`rc_invariant`, `no_dangling_no_garbage`, `writes_exclusive`, `freed_never_reused_*`) |
+| every allocation freed exactly once (leak freedom) | OPEN `no_leak_no_double_free` for full API histories (the tree-handle part is C08's `rc_invariant`; missing: the parser-held references — token cache, `finished_tree`, `old_tree`, reusable node, stack heads —, query/cursor objects, and acyclicity): **judged** on every history by the counting allocator |
 | `iterators_bounded`, `children_before_header` | OPEN (not ported) |
 -/
 namespace TsVerif.C07
